@@ -100,7 +100,8 @@ CLAIMED = {
          "distinct objects so an edit to one never shows in the other (fresh_results_isolated, allocation model), SAMI languages come in first-appearance "
          "order independently of any iteration-order permutation (languages_in_first_appearance_order); no function of the library memoises what it returns "
          "(no_process_wide_memo: the translator's scan for caching decorators / weak-reference tables over every module is empty), hence two constructed objects "
-         "are distinct and an in-place edit of one never shows in the other (constructed_objects_distinct). Execution: histories of reads/edits/writes over six "
+         "are distinct and an in-place edit of one never shows in the other (constructed_objects_distinct); no function anywhere in the library has a mutable "
+         "object as a parameter default (no_shared_default_objects, translator scan). Execution: histories of reads/edits/writes over six "
          "formats with reader reuse; every read compared with pristine sub-processes under three hash seeds; all other results re-snapshotted after every edit."),
    ref="§3 C10", technique="translator-derived structure flags + Lean 4 proof over allocation / reader-state models + history execution with sub-processes",
    note=NOTE_COMMON + "CPython object identity is modelled by allocation ids; hash seeds by execution; the other readers keep no state between calls (checked by execution only)."),
